@@ -1,6 +1,7 @@
 import JellyModel.Wire
 import JellyModel.Parse
 import JellyProofs.Lemmas.WireBytes
+import JellyProofs.Lemmas.HeaderLoop
 /-!
 # C08 — delimited vs non-delimited framing is always detected correctly
 # C09 — parsing is independent of how the byte source chunks its reads
@@ -87,56 +88,45 @@ theorem C08_hint_prefix (b : Bytes) (n : Nat) (hn : 3 ≤ n) : delimitedHint (b.
   | [_, _] => simp
   | _ :: _ :: _ :: _ => simp [delimitedHint]
 
-/-- C09 (partial: holds when the first raw read delivers at least three bytes, or the whole input
-    is shorter than three bytes). On a non-seekable raw source the parse result is the one obtained
-    from an in-memory buffer. After the header probe every read is a `BufferedReader.read(n)`, so
-    the rest of the schedule cannot matter (the model has no further dependence on it). -/
-theorem C09_partial (b : Bytes) (n : Nat) (h : 3 ≤ n ∨ b.length < 3) (strict quoted : Bool) :
-    parseFlat (.rawNonSeekable n) b strict quoted = parseFlat .seekable b strict quoted ∧
-    parseGrouped (.rawNonSeekable n) b strict quoted = parseGrouped .seekable b strict quoted := by
-  have hH : delimitedHint (SourceKind.header (.rawNonSeekable n) b) =
-      delimitedHint (SourceKind.header .seekable b) := by
+/-- C09: on a raw non-seekable source the parse result is the one obtained from an in-memory buffer,
+    for EVERY read schedule (sequence of short-read sizes, down to one byte at a time). After the
+    header has been collected and put back, every read is a `BufferedReader.read(n)`, which loops
+    until it has n bytes or the source ends, so the rest of the schedule cannot matter (the model has
+    no further dependence on it). -/
+theorem C09_schedule_independent (b : Bytes) (sched : List Nat) (strict quoted : Bool) :
+    parseFlat (.rawNonSeekable sched) b strict quoted = parseFlat .seekable b strict quoted ∧
+    parseGrouped (.rawNonSeekable sched) b strict quoted = parseGrouped .seekable b strict quoted ∧
+    parseToGraph (.rawNonSeekable sched) b quoted = parseToGraph .seekable b quoted := by
+  have hH : SourceKind.header (.rawNonSeekable sched) b = SourceKind.header .seekable b := by
     simp only [SourceKind.header]
-    rcases h with h | h
-    · exact C08_hint_prefix b (max n 1) (by omega)
-    · rw [hint_short _ (by rw [List.length_take]; omega),
-        hint_short _ (by rw [List.length_take]; omega)]
-  have hG : getOptionsAndFrames (.rawNonSeekable n) b = getOptionsAndFrames .seekable b := by
+    rw [readHeaderLoop_eq sched [] b (by simp), List.nil_append]
+  have hG : getOptionsAndFrames (.rawNonSeekable sched) b = getOptionsAndFrames .seekable b := by
     simp only [getOptionsAndFrames, hH]
-  simp only [parseFlat, parseGrouped, parseCore, hG, and_self]
+  simp only [parseFlat, parseGrouped, parseToGraph, parseCore, hG, and_self]
 
-/-- The hypothesis of `C09_partial` is needed. The 17 bytes below are
-    `writeDelimited { rows := [.options o] }` for the valid options
-    `o = { physicalType := 1, maxNames := 8, maxPrefixes := 8, maxDatatypes := 8, logicalType := 1,
-    version := 1 }` (frame length 16, row length 14). From an in-memory buffer the stream parses
-    without error; from a raw non-seekable source whose first read returns one byte the detector
-    sees a one-byte header, answers "non-delimited", and the parse fails with a decode error. -/
-theorem C09_counterexample :
-    parseFlat (.rawNonSeekable 1) [16, 10, 14, 10, 12, 16, 1, 72, 8, 80, 8, 88, 8, 112, 1, 120, 1] false true ≠
-      parseFlat .seekable [16, 10, 14, 10, 12, 16, 1, 72, 8, 80, 8, 88, 8, 112, 1, 120, 1] false true ∧
-    parseFlat .seekable [16, 10, 14, 10, 12, 16, 1, 72, 8, 80, 8, 88, 8, 112, 1, 120, 1] false true =
+/-- Any two schedules give the same result. -/
+theorem C09_any_two_schedules (b : Bytes) (s1 s2 : List Nat) (strict quoted : Bool) :
+    parseFlat (.rawNonSeekable s1) b strict quoted = parseFlat (.rawNonSeekable s2) b strict quoted := by
+  rw [(C09_schedule_independent b s1 strict quoted).1, (C09_schedule_independent b s2 strict quoted).1]
+
+/-- Regression witness for the repaired defect (`fixed: C09-short-first-read`): the 17-byte stream
+    `writeDelimited { rows := [.options o] }` read one byte at a time is detected as delimited and
+    parses as it does from memory. (Before the repair `peek(3)` saw a one-byte header, answered
+    "non-delimited", and the parse failed with a decode error.) -/
+theorem C09_regression_witness :
+    parseFlat (.rawNonSeekable [1, 1, 1, 1]) [16, 10, 14, 10, 12, 16, 1, 72, 8, 80, 8, 88, 8, 112, 1, 120, 1] false true =
       { events := [], err := none } ∧
-    parseFlat (.rawNonSeekable 1) [16, 10, 14, 10, 12, 16, 1, 72, 8, 80, 8, 88, 8, 112, 1, 120, 1] false true =
-      { events := [], err := some .decodeError } := by
+    delimitedHint (SourceKind.header (.rawNonSeekable [1, 1]) [4, 0x0A, 2, 0x0A, 0]) =
+      delimitedHint (SourceKind.header .seekable [4, 0x0A, 2, 0x0A, 0]) := by
   decide
 
 /-- The same stream is indeed what the writer produces. -/
-theorem C09_counterexample_bytes :
+theorem C09_witness_bytes :
     writeDelimited { rows := [.options
       { physicalType := 1, maxNames := 8, maxPrefixes := 8, maxDatatypes := 8, logicalType := 1, version := 1 }] } =
     [16, 10, 14, 10, 12, 16, 1, 72, 8, 80, 8, 88, 8, 112, 1, 120, 1] := by
   have hv : ∀ n, n < 128 → varint n = [n.toUInt8] := varint_lt
   simp [writeDelimited, encFrame, lenDelim, tag, encRow, encOptions, strField, uintField, boolField,
     encMetaEntry, hv]
-
-/-- Hint-level version on the 5-byte delimited stream `[4, 0x0A, 2, 0x0A, 0]` (one frame holding one
-    row that is an empty options message): the two sources disagree on the framing (and the two
-    parses fail with different errors). -/
-theorem C09_counterexample_hint :
-    delimitedHint (SourceKind.header (.rawNonSeekable 1) [4, 0x0A, 2, 0x0A, 0]) ≠
-      delimitedHint (SourceKind.header .seekable [4, 0x0A, 2, 0x0A, 0]) ∧
-    parseFlat (.rawNonSeekable 1) [4, 0x0A, 2, 0x0A, 0] false true ≠
-      parseFlat .seekable [4, 0x0A, 2, 0x0A, 0] false true := by
-  decide
 
 end Jelly
